@@ -203,7 +203,7 @@ def ev(e, env):
 # Structure probe: does an expression, as CasADi simplifies it, still depend on each shifted operand?
 # ----------------------------------------------------------------------------------
 
-def lost_offsets(exprs):
+def lost_offsets(exprs, signals_too=False):
     """exprs: list of trees that together form one relation (e.g. [lhs_i, rhs_i]).  Every leaf and every
     off(...) / placeholder node becomes a fresh MX symbol; returns the off-nodes the simplified difference
     no longer depends on (generator-made cancellations such as (x - x)*prev(y))."""
@@ -238,4 +238,22 @@ def lost_offsets(exprs):
     total = ca.MX(0)
     for i, e in enumerate(exprs):
         total = total + (i + 1.5) * rec(e)
-    return [json.loads(k) for k, s in atoms.items() if json.loads(k)[0] == "off" and not ca.depends_on(total, s)]
+    if not atoms:
+        return [["collapsed"]] if signals_too else []
+    # numeric dependence (two random points): MX does not simplify -2*x + 2*x, Opti's linear canonicalisation does
+    import numpy as np
+    keys = list(atoms)
+    av = ca.vertcat(*[atoms[k] for k in keys])
+    J = ca.Function("J", [av], [ca.jacobian(total, av)])
+    rng = np.random.default_rng(12345)
+    mag = np.zeros(len(keys))
+    for _ in range(2):
+        mag = np.maximum(mag, np.abs(np.array(J(rng.uniform(-1.3, 1.7, len(keys)))).reshape(-1)))
+    dead = {k for k, m_ in zip(keys, mag) if m_ < 1e-12}
+    lost = [json.loads(k) for k in keys if json.loads(k)[0] == "off" and k in dead]
+    if signals_too:
+        # the whole relation must still depend on some declared symbol (it may not collapse to a constant)
+        live = [k for k in keys if json.loads(k)[0] in ("sym", "off") + tuple(PLACEHOLDERS) and k not in dead]
+        if not live:
+            lost.append(["collapsed"])
+    return lost
